@@ -24,3 +24,7 @@ def run(F, X, rep):
     H.m_min_expiry(C, rep, "C04-M")
     P.r6_verbatim(C, rep, "C04-F")
     H.u3_reject_before_add(C, rep, "C04-G", which=("expiry",))
+    # "chain height known at that time" is the height cell's value: it must be the best height the node has reported,
+    # i.e. the cell never moves backwards (C20-W)
+    import p_c20
+    p_c20.w_single_guarded_writer(F, X, rep, "C04-H")
